@@ -320,6 +320,25 @@ package internal
 //@ axiom csv-empty: csvN("") == 0
 //@ axiom csv-count-nonneg: forall s string :: csvN(s) >= 0
 //@ spec func seqIsCSV(q iter.Seq[string], s string) bool = seqLen(q) == csvN(s) && (forall k int :: 0 <= k && k < csvN(s) ==> seqAt(q, k) == csvAt(s, k))
+// The tokenizer's quoting state machine (RFC 9110 5.6.4 quoted-string / quoted-pair, as this
+// cache reads it): csvE(s, i) - byte i is escaped by a preceding unescaped backslash;
+// csvQ(s, i) - byte i lies inside a quoted string. The loop of the iterator body is proved to
+// track exactly this machine (so a list is split only at commas outside quoted strings and
+// escapes); which elements that yields (csvN/csvAt) stays the trusted contract of TrimmedCSVSeq.
+// The yield callback is assumed not to reach the iterator's own locals.
+//@ spec func csvQ(s string, i int) bool
+//@ spec func csvE(s string, i int) bool
+//@ axiom csv-machine-start: forall s string :: !csvQ(s, 0) && !csvE(s, 0)
+//@ axiom csv-machine-step: forall s string, i int :: 0 <= i && i < len(s) ==> (csvE(s, i+1) == (!csvE(s, i) && s[i] == 92)) && (csvQ(s, i+1) == (csvQ(s, i) != (!csvE(s, i) && s[i] != 92 && s[i] == 34)))
+//@ fnparam TrimmedCSVSeq$1.yield(p)
+//@   pure
+//@ func TrimmedCSVSeq$1
+//@   property C12 C06 C02
+//@   requires s != nil && yield != nil
+//@   assigns *
+//@   loop 0 invariant *s == old(*s) && 0 <= rangeint_iter && rangeint_iter < len(*s)
+//@   loop 0 invariant inQuotes == csvQ(*s, rangeint_iter) && escape == csvE(*s, rangeint_iter)      # name: quoting-state-machine
+//@   loop 0 decreases len(*s) - rangeint_iter                                                       # name: tokenizer-terminates   props: C10 C12
 //@ func TrimmedCSVSeq
 //@   trusted
 //@   pure
